@@ -1018,7 +1018,7 @@ class SymOps:
             if v in (float("inf"), float("-inf")):
                 raise Unsupported("single-precision literal %s overflows its kind (gfortran rejects the module)" % s)
             return self.symx.SymNum(self.z3.RealVal(str(Fraction(v))))
-        return self.symx.SymNum(self.z3.RealVal(str(Fraction(s))))
+        return self.symx.SymNum(self.z3.RealVal(str(Fraction(float(s)))))      # the exact binary64 value of a double-precision literal
 
     def real(self, v):
         z3, S = self.z3, self.symx
@@ -1030,7 +1030,7 @@ class SymOps:
             from fractions import Fraction
             if v != v:
                 return S.SymNum(z3.Real("NaN"))
-            return S.SymNum(z3.RealVal(str(Fraction(repr(v)))))
+            return S.SymNum(z3.RealVal(str(Fraction(v))))
         if isinstance(v, S.SymNum):
             return v if not v.is_int else S.SymNum(z3.ToReal(v.t))
         raise Unsupported("real(%r)" % (v,))
